@@ -41,6 +41,9 @@ function CF(){
   return JSON.stringify({th:THISOBS(this), a:a});
 }
 var O = {m:CF};
+function TF(){ throw new RangeError("q"); }
+var N = 5;
+var OE = {t:TF, n:5};
 `
 
 type line struct {
@@ -51,6 +54,7 @@ type line struct {
 }
 
 type caseT struct {
+	What  string `json:"what"`
 	Fam   string `json:"fam"`
 	G     any    `json:"g"`
 	Conv  bool   `json:"conv"`
@@ -119,8 +123,8 @@ func runG2J(vm *otto.Otto, c *caseT) (M, error) {
 		if err != nil {
 			obs["toInt"] = "error: " + err.Error()
 		} else {
-			if mutate.Load() && i == 7 {
-				i = 8
+			if mutate.Load() {
+				i++ // seeded adapter fault: every ToInteger reading is off by one
 			}
 			obs["toInt"] = bridge.ZOfInt64(i)
 		}
@@ -245,6 +249,42 @@ func runJ2G(vm *otto.Otto, c *caseT, src string, consts map[string]float64) (M, 
 	return obs, nil
 }
 
+// runCallErr: calls that must fail: the callee throws, the value is not callable, the name does not resolve.
+func runCallErr(vm *otto.Otto, c *caseT) (M, error) {
+	var err error
+	switch c.Route {
+	case "value":
+		name := "TF"
+		if c.What == "notcallable" {
+			name = "N"
+		}
+		f, e := vm.Get(name)
+		if e != nil {
+			return nil, e
+		}
+		_, err = f.Call(otto.UndefinedValue(), 1)
+	case "object":
+		o, e := vm.Object("OE")
+		if e != nil {
+			return nil, e
+		}
+		name := "t"
+		if c.What == "notcallable" {
+			name = "n"
+		}
+		_, err = o.Call(name, 1)
+	case "otto":
+		src := map[string]string{"throws": "TF", "notcallable": "OE.n", "unresolvable": "nosuchfunction"}[c.What]
+		_, err = vm.Call(src, nil, 1)
+	default:
+		return nil, fmt.Errorf("bad route %q", c.Route)
+	}
+	if err == nil {
+		return M{"err": ""}, nil
+	}
+	return M{"err": bridge.ErrClass(err)}, nil
+}
+
 func runCall(vm *otto.Otto, c *caseT) (M, error) {
 	args := make([]interface{}, len(c.Args))
 	for i, a := range c.Args {
@@ -350,6 +390,8 @@ func (b *vmBox) execute(l *line, fresh bool) (obs any, src string, err error) {
 			m, err = runJ2G(b.vm, &c, src, consts)
 		case "call":
 			m, err = runCall(b.vm, &c)
+		case "callerr":
+			m, err = runCallErr(b.vm, &c)
 		default:
 			err = fmt.Errorf("unknown family %q", c.Fam)
 		}
@@ -424,9 +466,9 @@ type stats struct {
 	byFam                         sync.Map
 }
 
-func cfg(c *core.Ctx) string {
-	return fmt.Sprintf("CONSTANTS\n OpenDev = %s\n Tier = %q\nINIT Init\nNEXT Next\nINVARIANT Emit\nCHECK_DEADLOCK FALSE\n",
-		core.TLASet(c.Findings.OpenIDs()), c.Tier)
+func cfg(c *core.Ctx, src string) string {
+	return fmt.Sprintf("CONSTANTS\n OpenDev = %s\n Tier = %q\n Src = %q\nINIT Init\nNEXT Next\nINVARIANT Emit\nCHECK_DEADLOCK FALSE\n",
+		core.TLASet(c.Findings.OpenIDs()), c.Tier, src)
 }
 
 // replay consumes lines, compares and reports; returns the number of rejected lines.
@@ -506,19 +548,36 @@ func Check(c *core.Ctx) (map[string]any, []string, error) {
 	ch := make(chan []byte, 4096)
 	var keep [][]byte
 	var kmu sync.Mutex
+	nseen := 0
 	done := make(chan int64)
 	go func() { done <- replay(c, ch, st, &samples, true) }()
-	res, err := tlc.Run(tlc.Opts{SpecDir: c.SpecDir, Module: "C15", Cfg: cfg(c), Workers: c.Workers, Timeout: 30 * time.Minute, Seed: c.Seed},
+	nRandom := 500
+	if c.Thorough() {
+		nRandom = 20000
+	}
+	var res2 *tlc.Result
+	res, err := tlc.Run(tlc.Opts{SpecDir: c.SpecDir, Module: "C15", Cfg: cfg(c, "enum"), Workers: c.Workers, Timeout: 30 * time.Minute, Seed: c.Seed},
 		func(p []byte) {
 			b := make([]byte, len(p))
 			copy(b, p)
 			kmu.Lock()
-			if len(keep) < 400 {
+			nseen++
+			if nseen%5 == 0 && len(keep) < 400 {
 				keep = append(keep, b)
 			}
 			kmu.Unlock()
 			ch <- b
 		})
+	if err == nil {
+		// harness-chosen random Go values, expectations still computed by the specification
+		res2, err = tlc.Run(tlc.Opts{SpecDir: c.SpecDir, Module: "C15", Cfg: cfg(c, "file"), Workers: c.Workers, Timeout: 30 * time.Minute, Seed: c.Seed,
+			Files: map[string][]byte{"c15cases.ndjson": randomCases(c.Seed, nRandom, c.Thorough())}},
+			func(p []byte) {
+				b := make([]byte, len(p))
+				copy(b, p)
+				ch <- b
+			})
+	}
 	close(ch)
 	rej := <-done
 	if err != nil {
@@ -536,8 +595,10 @@ func Check(c *core.Ctx) (map[string]any, []string, error) {
 		samples = append(samples, "no conforming case sampled")
 	}
 	cov := map[string]any{
-		"states": res.Distinct, "transitions": res.Generated, "traces_validated_against_impl": st.cases,
-		"samples": samples, "tlc_runs": []any{M{"config": "C15 all families", "generated": res.Generated, "distinct": res.Distinct, "lines": res.Lines, "wall_s": res.Wall}},
+		"states": res.Distinct + res2.Distinct, "transitions": res.Generated + res2.Generated, "traces_validated_against_impl": st.cases,
+		"samples": samples, "tlc_runs": []any{M{"config": "C15 enumerated families", "generated": res.Generated, "distinct": res.Distinct, "lines": res.Lines, "wall_s": res.Wall},
+			M{"config": fmt.Sprintf("C15 %d seeded random values (harness-generated: Go values of every kind, JavaScript numbers and strings)", nRandom), "generated": res2.Generated, "distinct": res2.Distinct, "lines": res2.Lines, "wall_s": res2.Wall}},
+		"random_go_values": nRandom,
 		"conforming": st.conform, "conforming_to_known_deviation": st.dev, "non_reproducible_skipped": st.skipped,
 		"cases_by_family": byFam, "binding_self_test_rejected": selfOK,
 	}
@@ -581,8 +642,8 @@ func selfTest(c *core.Ctx, keep [][]byte) bool {
 		switch {
 		case strings.Contains(s, "true"):
 			t = strings.Replace(s, "true", "false", 1)
-		case strings.Contains(s, `"v":`):
-			t = strings.Replace(s, `"v":`, `"v":1`, 1)
+		case strings.Contains(s, `"t":"undef"`):
+			t = strings.Replace(s, `"t":"undef"`, `"t":"null"`, 1)
 		default:
 			continue
 		}
@@ -599,6 +660,9 @@ func selfTest(c *core.Ctx, keep [][]byte) bool {
 	var s2 []any
 	r2 := replay(quiet, ch2, &stats{}, &s2, false)
 	c.Note("binding self-test: mutated adapter rejected on %d of %d lines; corrupted expectation rejected on %d of %d lines", r1, len(keep), r2, n2)
+	if !(r1 > 0 && n2 > 0 && r2 == int64(n2)) {
+		fmt.Printf("binding self-test: mutated adapter rejected on %d of %d lines; corrupted expectation rejected on %d of %d lines\n", r1, len(keep), r2, n2)
+	}
 	return r1 > 0 && n2 > 0 && r2 == int64(n2)
 }
 
